@@ -608,6 +608,26 @@ def d_borrow(P, f, s):
     return "D-BORROW: no conflicting guard of RefCell<%s> is alive in this function here (callers are covered by BORROW-OVERLAP)" % D.short_ty(ct)
 
 
+# ------------------------------------------------------------------ D-ZERODIV
+def d_zerodiv(P, f, s):
+    """wrapping_rem_euclid / wrapping_div & co panic only on a zero divisor: discharged under the false edge of `rhs == 0`."""
+    if s.kind != "call:int::zero-div" or len(s.term["args"]) < 2:
+        return None
+    rhs = PN.describe_operand(f, s.term["args"][1])
+    for sw in D.bool_switches(f):
+        r = sw["root"]
+        if r[0] != "rv" or r[3]["rv"]["k"] != "binop" or r[3]["rv"]["op"] not in ("Eq", "Ne"):
+            continue
+        rv = r[3]["rv"]
+        x, y = PN.describe_operand(f, rv["a"]), PN.describe_operand(f, rv["b"])
+        if {x, y} != {rhs, "0"}:
+            continue
+        edge = "false" if rv["op"] == "Eq" else "true"
+        if sw[edge] is not None and s.bb in D.edge_dominated(f, sw["bb"], sw[edge]):
+            return "D-ZERODIV: the divisor %s is tested against 0 and this call is on the non-zero edge" % rhs
+    return None
+
+
 # ------------------------------------------------------------------ D-SLICEORDER (source slices by AST positions)
 def _offset_desc(f, op):
     d = PN.describe_operand(f, op)
@@ -659,7 +679,7 @@ def d_slice_order(P, f, s):
     return None
 
 
-RULES = [d_usize, d_arity, d_len, d_constre, d_lock, d_sub_guard, d_frame, d_valstack, d_peek, d_dispatch, d_borrow, d_slice_order]
+RULES = [d_usize, d_arity, d_len, d_constre, d_lock, d_sub_guard, d_frame, d_valstack, d_peek, d_dispatch, d_borrow, d_slice_order, d_zerodiv]
 
 
 # ------------------------------------------------------------------ the PANIC-INV rule
